@@ -315,7 +315,7 @@ func runC16(h *H) {
 		decOne(t, "corpus")
 	}
 	dalpha := []byte{'&', '-', 'A', 'k', 'l', '=', ',', '+', 'a', 0x1f, 0x80, '\r'}
-	dlen := h.Pick(4, 6)
+	dlen := h.Pick(4, 5)
 	var drec func(p []byte)
 	drec = func(p []byte) {
 		if len(p) > 0 {
